@@ -319,6 +319,30 @@ def plain(ctx, dim, n, F, est):
         r["args"][4] is None, r["kw"] == {"check_shape": False, "stacked": True, "fit_normalizer": False}))
 
 
+@contract(P, "variogram._set_estimator/estimator-names-are-case-insensitive",
+          params={"name": ["matheron", "Matheron", "MATHERON", "cressie", "Cressie", "CRESSIE", "unknown", "m", ""]},
+          functions=["variogram/variogram.py:_set_estimator", "variogram/variogram.py:vario_estimate",
+                     "variogram/variogram.py:vario_estimate_axis"], bounded=B_SHAPES, nsamples=1)
+def estimator_names(ctx, name):
+    """the kernels take 'm' (Matheron) or 'c' (Cressie) -- anything else silently selects Cressie there; the name
+    given by the user is matched case-insensitively (the code lower-cases it) and unknown names are rejected"""
+    want = {"matheron": "m", "cressie": "c"}.get(name.lower())
+    try:
+        got = V._set_estimator(name)
+        raised = False
+    except ValueError:
+        got, raised = None, True
+    ctx.ensure("translation", (raised and want is None) or (not raised and got == want))
+    if want is None:
+        return
+    pos = sym_matrix(ctx, "x", 2, 3)
+    fld = sym_matrix(ctx, "f", 1, 3)
+    e = sym_edges(ctx)
+    run_ve(ctx, pos, fld[0], e, estimator=name)
+    k = kernel_call("unstructured_c")
+    ctx.ensure("kernel-receives-the-one-letter-code", k is not None and k[0][3] == want)
+
+
 # ---------------------------------------------------------------------------------------
 # 2. masks / masked arrays / no_data / NaN  ==  removed points resp. NaN entries
 # ---------------------------------------------------------------------------------------
